@@ -125,10 +125,11 @@ var codeName = map[uint32]string{0: "NO", 1: "PE", 3: "FC", 5: "SC", 6: "FS", 7:
 var frontPath = map[int]bool{} // path id -> its requests go to the front gate (set before the paths run)
 
 func frameBytes(f []any, tag func(sid uint32) string, trailer bool) []byte {
-	return frameBytesF(f, tag, trailer, false)
+	return frameBytesF(f, tag, trailer, false, 0)
 }
 
-func frameBytesF(f []any, tag func(sid uint32) string, trailer bool, front bool) []byte {
+// cl > 0: a well-formed request block also declares this content-length - the number of octets the path will really send on the stream
+func frameBytesF(f []any, tag func(sid uint32) string, trailer bool, front bool, cl int) []byte {
 	typ := f[0].(string)
 	sid := uint32(f[1].(float64))
 	es, eh := f[2].(bool), f[3].(bool)
@@ -150,6 +151,9 @@ func frameBytesF(f []any, tag func(sid uint32) string, trailer bool, front bool)
 			for i := 0; i < 60; i++ {
 				fs = append(fs, h2raw.HF{fmt.Sprintf("x-big-%02d", i), strings.Repeat("v", 60)})
 			}
+		}
+		if cl > 0 && kind == "ok" && !trailer {
+			fs = append(fs, h2raw.HF{"content-length", strconv.Itoa(cl)})
 		}
 		if kind == "clsmall" && !trailer {
 			fs = append(fs, h2raw.HF{"content-length", "1"}) // less than any DATA frame of the alphabet carries
@@ -363,7 +367,8 @@ func runPath(st *stack.Stack, g *gated, p Path) PathObs {
 			front = true
 		}
 	}
-	for _, s := range p.Steps {
+	declared := map[uint32]int{} // stream -> content-length its request block declared
+	for si, s := range p.Steps {
 		var so StepObs
 		if s.Dead {
 			break
@@ -377,8 +382,43 @@ func runPath(st *stack.Stack, g *gated, p Path) PathObs {
 				}
 				isTrailer[sid] = s.Trailer
 				headersSeen[sid] = true
+				if !s.Trailer {
+					delete(declared, sid)
+					// every third path: a request that will carry a body declares its length - the octets of the DATA frames the path
+					// sends on the stream before it ends (whatever their padding); legal, and nothing in the reactions depends on it
+					if p.ID%3 == 0 && s.Frame[4].(string) == "ok" && !s.Frame[2].(bool) {
+						total, ended := 0, false
+					scan:
+						for _, n := range p.Steps[si+1:] {
+							if n.Dead {
+								break
+							}
+							if n.Frame == nil || uint32(n.Frame[1].(float64)) != sid {
+								continue
+							}
+							switch n.Frame[0].(string) {
+							case "DATA":
+								if !(len(n.Frame) > 5 && int(n.Frame[5].(float64)) == 2) {
+									total += 3
+								}
+								if n.Frame[2].(bool) {
+									ended = true
+									break scan
+								}
+							case "HEADERS":
+								ended = n.Trailer && n.Frame[2].(bool) && n.Frame[3].(bool) && n.Frame[4].(string) == "ok"
+								break scan
+							case "RST", "CONT":
+								break scan
+							}
+						}
+						if ended && total > 0 {
+							declared[sid] = total
+						}
+					}
+				}
 			}
-			b := frameBytesF(s.Frame, tag, isTrailer[sid], front)
+			b := frameBytesF(s.Frame, tag, isTrailer[sid], front, declared[sid])
 			if typ == "HEADERS" || typ == "CONT" {
 				allTags = append(allTags, tag(sid))
 			}
